@@ -222,7 +222,7 @@ static Profile profile(const std::string& name, bool T) {
     Profile p;
     auto PS = [](uint64_t m, uint64_t tps, int h, int c = 0) { return ParamSpec{m, tps, h, c}; };
     if (name == "flush") {
-        p.alphabet = {"qr1", "qr5", "qr6", "qr7", "aec0", "aec1", "aec4", "mm1", "wb", "rotx", "act0", "act1", "act7"};
+        p.alphabet = {"qr1", "qr5", "qr6", "qr7", "aec0", "aec1", "aec4", "aec5", "mm1", "wb", "rotx", "act0", "act1", "act7"};
         for (uint64_t m0 : {0, 1, 2, 3}) for (uint64_t m1 : {1, 2}) for (int h : {0, 1, 2})
             p.cfgs.push_back({"m" + std::to_string(m0) + "_" + std::to_string(m1) + "_h" + std::to_string(h), {PS(m0, 1000000, h), PS(m1, 1000000, h)}, PS(2, 1000, 0)});
         // exactly one of the two other-data hint bits set (address events only / malformed messages only)
@@ -242,7 +242,7 @@ static Profile profile(const std::string& name, bool T) {
     } else if (name == "rotate-xz") {
         p = profile("rotate", T); p.runs = {{"", S_FILE, 2}, {"", S_FD, 2}}; p.alphabet = {"qr0", "aec0", "mm0", "wb", "rotx", "rotn", "rots", "addbp", "act1"}; p.depth_q = 2; p.depth_t = 3;
     } else if (name == "roundtrip") {
-        p.alphabet = {"qr0", "qr1s1", "qr2", "qr3s2", "qr4", "qr6", "aec0", "aec1s1", "aec1s2", "aec2", "aec3", "mm0", "mm1s2", "mm3", "mm4", "mm5", "wb", "act0", "act1", "rotx"};
+        p.alphabet = {"qr0", "qr1s1", "qr2", "qr3s2", "qr4", "qr6", "aec0", "aec1s1", "aec1s2", "aec2", "aec3", "aec4", "mm0", "mm1s2", "mm3", "mm4", "mm5", "wb", "act0", "act1", "rotx"};
         for (int h : {0, 3, 2, 5, 6, 7}) for (uint64_t tps : {1ULL, 1000ULL, 1000000ULL, 1000000000ULL}) for (uint64_t m : {1, 2, 3, 10000}) {   // 6, 7: hint words that keep every other member (the two words differ in every bit)
             if (!T && !((h == 0) || (tps == 1000000 && m == 2) || (h == 3 && tps == 1 && m == 3) || (h == 5 && tps == 1000000000 && m == 10000) || (h == 6 && tps == 1000 && m == 3) || (h == 7 && tps == 1000000 && m == 10000))) continue;
             p.cfgs.push_back({"h" + std::to_string(h) + "_t" + std::to_string(tps) + "_m" + std::to_string(m), {PS(m, tps, h, m == 2), PS(m == 1 ? 2 : 1, tps == 1000 ? 1000000 : 1000, h == 0 ? 3 : 0)}, PS(2, 1000, 0)});
